@@ -9,9 +9,9 @@ import vrun
 from props import _nfamily
 from common import cerberus
 
-LEVEL = "exploration"
-COQ_FILES = ["theories/Model/Normalize.v"]
-FACT_GROUPS = ["F11", "F6"]
+LEVEL = "proof"
+COQ_FILES = ["theories/Model/Ownership.v", "theories/Proofs/OwnershipProofs.v", "theories/Properties/C05.v"]
+FACT_GROUPS = ["F14", "F11", "F16"]
 ALLOWED_AXIOMS = []
 TRUSTED_BASE = _nfamily.BASE_TRUSTED + ["oracle: deep equality and repr equality of the caller's document, of dict(validator.schema) and of both registries before/after each API call"]
 ASSUMPTIONS = _nfamily.BASE_ASSUMPTIONS + ["aliasing created by user-supplied callables is out of scope (pool functions are pure)"]
